@@ -14,8 +14,12 @@ import (
 	"example.com/scion-time/core/client"
 	"example.com/scion-time/core/sync"
 
+	"example.com/scion-time/base/timebase"
+	"example.com/scion-time/driver/clocks"
+
 	"verif.local/sim/simclock"
 	"verif.local/sim/simcore"
+	"verif.local/sim/simkern"
 )
 
 // W-sync: the real sync.Run loop (with the real ReferenceClockClient,
@@ -94,6 +98,20 @@ func (s *c01Source) MeasureClockOffset(ctx context.Context) (time.Time, time.Dur
 	s.w.ever[s.group] = append(s.w.ever[s.group], p.off)
 	s.r.Log("src %s call %d answers %d", s.name, call, p.off)
 	return now, p.off, nil
+}
+
+// c01RealClock is the repository's system clock driver with the world's per-round
+// bookkeeping around Sleep.
+type c01RealClock struct {
+	timebase.SystemClock
+	before func(d time.Duration)
+	after  func()
+}
+
+func (c *c01RealClock) Sleep(d time.Duration) {
+	c.before(d)
+	c.SystemClock.Sleep(d)
+	c.after()
 }
 
 type c01Do struct {
@@ -230,6 +248,10 @@ func c01World(t *testing.T, r *simcore.Run) any {
 	// The drift allowance for one interval is what the (simulated) system clock says it
 	// is; the caps are the statement's "impact factor x drift x interval".
 	driftNs := float64(simclock.New(0, 0, drift).Drift(interval))
+	realDriver := tp.Bool(1, 4, "realdriver")
+	if realDriver {
+		driftNs = float64(interval) * drift // the statement's "configured drift x sync interval"
+	}
 	caps := [2]float64{cfg.ReferenceClockImpact * driftNs, cfg.PeerClockImpact * driftNs}
 
 	w := &c01State{}
@@ -437,7 +459,13 @@ func c01World(t *testing.T, r *simcore.Run) any {
 		default:
 			want = 0
 		}
-		if math.Abs(corr-want) > 3+math.Abs(want)*1e-12 {
+		exactTol := 3.0
+		if realDriver {
+			// the driver's Drift() truncates to whole nanoseconds, and the caps are that times the
+			// impact factors: the clamped value may fall short of the statement's product by that much
+			exactTol += cfg.PeerClockImpact
+		}
+		if math.Abs(corr-want) > exactTol+math.Abs(want)*1e-12 {
 			r.Fail("C01", "value/all-answered", "round %d: correction %d ns, statement gives %.3f ns (ref %v peers %v cutoff %v caps %.3f/%.3f)",
 				k, d.corr, want, in[0], in[1], cfg.PeerClockCutoff, caps[0], caps[1])
 			return
@@ -446,7 +474,7 @@ func c01World(t *testing.T, r *simcore.Run) any {
 		r.Probe("exact-round")
 	}
 
-	clk.SleepFn = func(d time.Duration) {
+	beforeSleep := func(d time.Duration) int {
 		k := sleeps
 		sleeps++
 		if d != cfg.SyncInterval {
@@ -457,8 +485,25 @@ func c01World(t *testing.T, r *simcore.Run) any {
 			finished = true
 			r.Finish()
 		}
+		return k
+	}
+	clk.SleepFn = func(d time.Duration) {
+		k := beforeSleep(d)
 		r.ParkOrExit(&simcore.Op{ID: fmt.Sprintf("sleep:%d", k), Node: node, Deadline: time.Now().Add(d), NoDelay: true})
 		roundStarts = append(roundStarts, time.Now())
+	}
+	// In a quarter of the runs the loop runs on the repository's real system clock driver
+	// (driver/clocks: Drift, Sleep through an absolute timerfd, Epoch) over a simulated kernel
+	// clock with an oscillator error of up to 50 ppm.
+	var lclk timebase.SystemClock = clk
+	if realDriver {
+		kern := simkern.New(r, node, clk, tp.Range(0, 100000, "hwppb")-50000)
+		simkern.Current = kern
+		defer func() { simkern.Current = nil }()
+		lclk = &c01RealClock{SystemClock: clocks.NewSystemClock(quietLog(), time.Duration(math.Round(drift*1e9))),
+			before: func(d time.Duration) { beforeSleep(d) },
+			after:  func() { roundStarts = append(roundStarts, time.Now()) }}
+		r.Probe("real-clock-driver")
 	}
 	go func() {
 		defer func() {
@@ -470,7 +515,7 @@ func c01World(t *testing.T, r *simcore.Run) any {
 		if r.Sleep("start", node, 0).Killed {
 			return
 		}
-		sync.Run(quietLog(), cfg, clk, rec, refClks, peerClks)
+		sync.Run(quietLog(), cfg, lclk, rec, refClks, peerClks)
 	}()
 	reason := r.Loop(5_000_000, 0)
 	r.SetVT()
